@@ -33,6 +33,32 @@ def run(fx, rep, tier):
     rule_matesrc(fx, rep, neg)
     rule_key(fx, rep)
     rule_report(fx, rep)
+    rule_qprobe(fx, rep)
+
+
+def rule_qprobe(fx, rep):
+    """C08-PVGUARD/quiescence. "No hash cut-off in PV nodes" also covers the node where the principal variation ends: quiescence
+    is entered from PV and non-PV nodes alike and carries no PV flag, so a value it returns out of a table probe cuts the
+    principal variation at the horizon - harmless for ordinary scores, but a stored mate score is then announced with a line
+    that stops short of the mate. The value quiescence returns must not be derived from a transposition-table probe."""
+    q = fx.find("search::quiescence::quiescence")
+    if not q:
+        rep.rule("C08-PVGUARD/quiescence", 0, 0, True, "quiescence not found: not decided")
+        return
+    q = q[0]
+    probes = [(bb, t) for bb, t in q.calls() if "TranspositionTable" in norm(callee_name(t) or "") and norm(callee_name(t) or "").split("::")[-1] == "get"]
+    n, ok = 0, True
+    if probes:
+        sl, _recs = q.slice_back([0])
+        for bb, t in probes:
+            n += 1
+            good = t["dest"]["l"] not in sl
+            rep.obligation(good)
+            if not good:
+                ok = False
+                rep.violation("C08-PVGUARD", "C08-PVGUARD/quiescence/probe", f"`{q.name}` (line {t.get('line')}) returns a value taken from a transposition-table probe; it has no PV flag, so the leaf of the principal "
+                              "variation is cut off by a stored score too: a mate score from an earlier search is announced with a line that stops at the horizon", {"fn": q.name, "file": q.file, "line": t.get("line")})
+    rep.rule("C08-PVGUARD/quiescence", n, 0, ok, "quiescence returns nothing taken from a table probe")
 
 
 def rule_report(fx, rep):
@@ -827,6 +853,8 @@ def _c03_mutant(tag, expect):
 
 
 MUTANTS = [
+    {"name": "quiescence returns stored scores out of a table probe (seed C08-10a)", "expect": "C08-PVGUARD/quiescence/probe",
+     "edits": __import__("shared_mutants").edits_from_patch("seeded/C08-10a/patch.diff")},
     {"name": "the UCI reporter prints at most `depth` moves of the line (seed C08-9a)", "expect": "C08-REPORT/uci_report_search_progress/take",
      "edits": __import__("shared_mutants").edits_from_patch("seeded/C08-9a/patch.diff")},
     {"name": "timed searches built without the requested depth limit (seed C08-6b)", "expect": "C08-DEPTH/limit-dropped",
